@@ -23,10 +23,10 @@ PROP = dict(
               'Fit.C01.C01_e2e_full_fails_zero', 'Fit.C01.C01_e2e_full_fails_fffd', 'Fit.C01.C01_e2e_reencode_full_fails_boolarr',
               'Fit.C01.C01_e2e_value_independent_of_byte_order'],
     families=[dict(name='encw'), dict(name='decw'), dict(name='rtw', prop=True), dict(name='rte2e', prop=True)],
-    # link of the wire model (A) with the reader-client model (D): the full link is FALSE (Link_wire_full_false, notes/links.md D1);
-    # proved wherever (D) does not report an invalid base type; the cross-check compares the two models on every decw line
-    # (additive: checklib/props/_links.py)
-    extra=with_links(None, ['Fit.Links.Link_wire_full_false', 'Fit.Links.Link_wire_eq_decprog_partial',
+    # link of the wire model (A) with the reader-client model (D): equal on EVERY byte list (Link_wire_eq_decprog; the former
+    # disagreement D1 of notes/links.md — (A) had no field descriptions — is repaired in the model, Link_wire_d1_agree evaluates
+    # its witness); the cross-check compares the two models on every decw line (additive: checklib/props/_links.py)
+    extra=with_links(None, ['Fit.Links.Link_wire_eq_decprog', 'Fit.Links.Link_wire_d1_agree',
                             'Fit.Links.Link_C01_chain_decprog', 'Fit.Links.Link_C01_chain_api'], crosscheck=[('decw', 'linkwire')]),
     trusted_base=STD_TRUST + [
         "wire-level model FitModel/Wire.lean (encoder framing, LRU, compressed timestamps, header/CRC, chained files; decoder framing and timestamp tracking) is hand-written and tied by the families encw (real encoder, pass-through validator, 4 writer kinds, 10 buffer sizes), decw (real decoder on fixtures, encoder outputs and mutants, listener events) and rtw (real encode→decode with the round-trip predicate evaluated by the Lean driver)",
